@@ -63,9 +63,14 @@ type Step struct {
 	Calls []specfs.Call
 	NH    int
 	Dump  []specfs.Entry
+	Obs2  *nfsx.Obs
 }
 
 func (s *Step) Coq() string {
+	obs2 := "None"
+	if s.Obs2 != nil {
+		obs2 = "(Some " + s.Obs2.Coq() + ")"
+	}
 	var raw []string
 	for _, c := range s.Calls {
 		raw = append(raw, CBytes([]byte(c.Path)))
@@ -73,8 +78,8 @@ func (s *Step) Coq() string {
 			raw = append(raw, CBytes([]byte(c.Path2)))
 		}
 	}
-	return fmt.Sprintf("{| i_step := {| hs_adv := %d; hs_cred := %s; hs_req := %s |}; i_rpc := %d; i_obs := %s; i_calls := %s; i_raw := %s; i_nh := %d; i_dump := %s |}",
-		s.AdvNs, nfsx.CoqCred(s.Cred), s.Req.Coq(), s.Obs.RPC, s.Obs.Coq(), nfsx.CoqCalls(s.Calls), CList(raw), s.NH, nfsx.CoqDump(s.Dump))
+	return fmt.Sprintf("{| i_step := {| hs_adv := %d; hs_cred := %s; hs_req := %s |}; i_rpc := %d; i_obs := %s; i_calls := %s; i_raw := %s; i_nh := %d; i_reslen := %d; i_dump := %s; i_obs2 := %s |}",
+		s.AdvNs, nfsx.CoqCred(s.Cred), s.Req.Coq(), s.Obs.RPC, s.Obs.Coq(), nfsx.CoqCalls(s.Calls), CList(raw), s.NH, len(s.Obs.Raw), nfsx.CoqDump(s.Dump), obs2)
 }
 func (s *Step) Text() string {
 	adv := ""
@@ -89,6 +94,7 @@ type Session struct {
 	Cfg   Cfg
 	Env   *nfsx.Env
 	Init  []specfs.Entry
+	Twin  *nfsx.Env // optional second server with minimal caches, fed the same requests
 	Steps []*Step
 	// what the generator knows
 	Handles []uint64
@@ -116,6 +122,9 @@ func (s *Session) Do(advNs int64, c nfsx.Cred, r *nfsx.Req) *Step {
 	s.Env.FS.TakeLog()
 	o := s.Env.Do(c, r)
 	st := &Step{AdvNs: advNs, Cred: c, Req: r, Obs: o, Calls: s.Env.FS.TakeLog(), NH: s.Env.NFS.VerifFileMap().Count(), Dump: s.Env.FS.Dump(false)}
+	if s.Twin != nil {
+		st.Obs2 = s.Twin.Do(c, r)
+	}
 	s.Steps = append(s.Steps, st)
 	add := func(h uint64) {
 		for _, x := range s.Handles {
@@ -156,6 +165,9 @@ func (s *Session) Case(kind string, idx int) Case {
 	s.Tags["steps"] = len(s.Steps)
 	coq := fmt.Sprintf("{| c_cfg := %s; c_maxh := %s; c_init := %s; c_steps := %s |}", s.Cfg.Coq(), CZ(int64(s.Cfg.MaxHand)), nfsx.CoqDump(s.Init), CList(steps))
 	s.Env.Close()
+	if s.Twin != nil {
+		s.Twin.Close()
+	}
 	return Case{Index: idx, Kind: kind, Coq: coq, Tags: s.Tags, Text: "cfg: " + s.Cfg.Text() + "\n" + strings.Join(txt, "\n")}
 }
 
